@@ -58,7 +58,7 @@ Fixpoint dec_val (s : bstr) (acc : N) : N :=
 
 (* the pieces of  -? D+ ( . D+ )? ( e [+-]? D+ )?  -- the float literals scanNumber emits;
    [None] for any other shape *)
-Record float_lit := { fl_neg : bool; fl_int : bstr; fl_frac : bstr; fl_eneg : bool; fl_exp : bstr }.
+Record float_lit := { lit_neg : bool; lit_int : bstr; lit_frac : bstr; lit_eneg : bool; lit_exp : bstr }.
 
 Definition split_float (s : bstr) : option float_lit :=
   let '(neg, s1) := match s with 45 :: r => (true, r) | _ => (false, s) end in
@@ -68,12 +68,12 @@ Definition split_float (s : bstr) : option float_lit :=
   | _ =>
       let after_frac (fp : bstr) (s3 : bstr) : option float_lit :=
         match s3 with
-        | [] => Some {| fl_neg := neg; fl_int := ip; fl_frac := fp; fl_eneg := false; fl_exp := [] |}
+        | [] => Some {| lit_neg := neg; lit_int := ip; lit_frac := fp; lit_eneg := false; lit_exp := [] |}
         | 101 :: s4 =>
             let '(eneg, s5) := match s4 with 43 :: r => (false, r) | 45 :: r => (true, r) | _ => (false, s4) end in
             let '(ex, s6) := span_digits s5 in
             match ex, s6 with
-            | _ :: _, [] => Some {| fl_neg := neg; fl_int := ip; fl_frac := fp; fl_eneg := eneg; fl_exp := ex |}
+            | _ :: _, [] => Some {| lit_neg := neg; lit_int := ip; lit_frac := fp; lit_eneg := eneg; lit_exp := ex |}
             | _, _ => None
             end
         | _ => None
@@ -93,13 +93,13 @@ Definition parse_float (s : bstr) : option fl :=
   match split_float s with
   | None => None
   | Some l =>
-      let d := dec_val (fl_int l ++ fl_frac l) 0 in
-      if d =? 0 then Some (FZero (fl_neg l))
-      else if (4 <? N.of_nat (length (fl_exp l))) then None
+      let d := dec_val (lit_int l ++ lit_frac l) 0 in
+      if d =? 0 then Some (FZero (lit_neg l))
+      else if (4 <? N.of_nat (length (lit_exp l))) then None
       else
-        let ex := Z.of_N (dec_val (fl_exp l) 0) in
-        let k := ((if fl_eneg l then - ex else ex) - Z.of_nat (length (fl_frac l)))%Z in
-        let m := if fl_neg l then (- Z.of_N d)%Z else Z.of_N d in
+        let ex := Z.of_N (dec_val (lit_exp l) 0) in
+        let k := ((if lit_eneg l then - ex else ex) - Z.of_nat (length (lit_frac l)))%Z in
+        let m := if lit_neg l then (- Z.of_N d)%Z else Z.of_N d in
         if (400 <? Z.abs k)%Z then None
         else if (0 <=? k)%Z then mk_fl (m * 10 ^ k)%Z 0
         else
